@@ -27,6 +27,8 @@ pub struct DiffCfg<'a> {
     pub exclude: &'a (dyn Fn(&Node) -> Option<&'static str> + Sync),
     /// known-finding attribution by static class: (finding id) if the pattern is in a listed class
     pub static_known: &'a (dyn Fn(&Node) -> Option<&'static str> + Sync),
+    /// spelling of the printed pattern (None = plain)
+    pub style: Option<&'a crate::ast::Style>,
 }
 
 pub fn default_exclude(p: &Node) -> Option<&'static str> {
@@ -71,7 +73,10 @@ pub fn run(ctx: &Ctx, cfg: &DiffCfg<'_>, patterns: &[Node], texts: &[String]) ->
             acc.count(&format!("excluded:{}", why));
             return;
         }
-        let s = p.print();
+        let s = match cfg.style {
+            Some(st) => p.print_with(st),
+            None => p.print(),
+        };
         let re = match compile(&s) {
             Got::Val(r) => r,
             Got::Err(e) => {
